@@ -220,3 +220,44 @@ def open_ended(tier):
                 samples.append({'version': v, 'segment': seg, 'orders': orders[:2]})
     return {'checked': checked, 'failures': failures, 'samples': samples, 'exhaustive': False,
             'rule': 'open-ended segments x population orders (ascending, descending, mixed, far indices)'}
+
+
+def twf_groups(tier):
+    """data invariants assumed by the group-search contract (C08), instantiated at every message structure and nested
+    group of every version: a structure is ('sequence', children); every child entry is a 4-sequence (name, reference,
+    (min, max), 'SEG' | 'GRP') - a tuple at the top level, a list inside groups: read-only records for the contract; a GRP entry carries a
+    (kind, children) reference"""
+    checked = 0
+    failures = []
+    samples = []
+
+    def bad(v, m, path, why):
+        failures.append({'id': 'group-table-shape:%s:%s:%s' % (v, m, '/'.join(path)), 'family': 'group-table-shape:%s:%s' % (v, m),
+                         'text': 'v%s %s at %s: %s' % (v, m, '/'.join(path) or '<root>', why)})
+
+    def walk(v, m, ref, path, depth):
+        nonlocal checked
+        checked += 1
+        if not (isinstance(ref, tuple) and len(ref) == 2 and ref[0] in ('sequence', 'choice') and isinstance(ref[1], tuple)):
+            bad(v, m, path, 'not a (\'sequence\' | \'choice\', children) pair: %s' % repr(ref)[:80])
+            return
+        for e in ref[1]:
+            checked += 1
+            if not (isinstance(e, (tuple, list)) and len(e) == 4 and isinstance(e[0], str) and e[3] in ('SEG', 'GRP')
+                    and isinstance(e[2], tuple) and len(e[2]) == 2):
+                bad(v, m, path, 'malformed child entry %r' % (e[:1],))
+                continue
+            if e[3] == 'GRP':
+                if e[1] is None:
+                    bad(v, m, path + [e[0]], 'GRP entry without a reference')
+                elif depth < 12:
+                    walk(v, m, e[1], path + [e[0]], depth + 1)
+    for v in VERSIONS:
+        L = lib(v)
+        for m, ref in sorted(L.MESSAGES.items()):
+            walk(v, m, ref, [], 0)
+            if len(samples) < 2:
+                samples.append({'version': v, 'message': m, 'children': [e[0] for e in ref[1]][:8]})
+    return {'checked': checked, 'failures': failures, 'samples': samples,
+            'rule': 'one obligation per structure node and per child entry of every message structure of every version',
+            'exhaustive': True}
